@@ -168,14 +168,29 @@ class World(object):
         raise ValueError(kind)
 
     def state(self):
+        import threading
         tr = self.env.tr
         d = {}
         for k, v in vars(tr).items():
-            if k in ('tape_cassette', '_random', '_thread_locals', '_classes_recording_params'):
+            if k in ('tape_cassette', '_random', '_thread_locals', '_classes_recording_params') or isinstance(v, threading.local) or type(v).__name__ == 'Random':
                 continue
             d[k] = ('recording', getattr(v, 'id', None)) if hasattr(v, 'get_all_keys') else P.canon(v)
         d['flag-main'] = getattr(tr, '_currently_in_interception', None)
         d['flag-pool'] = self.pw.run(lambda: getattr(tr, '_currently_in_interception', None))
+        # whatever per-thread state the recorder keeps, under whatever name: only what is SET (truthy) counts, on both threads
+        import threading
+
+        def tls_view():
+            out = {}
+            for k, v in vars(tr).items():
+                if isinstance(v, threading.local):
+                    for a in sorted(set(dir(v)) - set(dir(threading.local))):
+                        val = getattr(v, a, None)
+                        if not callable(val) and val:
+                            out['%s.%s' % (k, a)] = P.canon(val)
+            return out
+        d['tls-main'] = tls_view()
+        d['tls-pool'] = self.pw.run(tls_view)
         d['api'] = (tr.in_recording_mode, tr.in_playback_mode, tr.current_recording_id, tr.is_recording_sample_forced)
         return d
 
